@@ -13,6 +13,7 @@ import (
 	"strconv"
 	"strings"
 	"sync"
+	"time"
 
 	"nvharness/lib/corr"
 	_ "nvharness/lib/quiet"
@@ -197,6 +198,7 @@ type worker struct {
 	stdin  io.WriteCloser
 	stdout *bufio.Reader
 	stderr *bytes.Buffer
+	lines  chan wline
 }
 
 var (
@@ -204,6 +206,23 @@ var (
 	wk        *worker
 	spinsSeen int // workers given up because a loop of the code under test never parked
 )
+
+// one script line must be answered within this time (the longest legitimate line is a stress scenario, a few seconds)
+const lineTimeout = 90 * time.Second
+
+type wline struct {
+	b   []byte
+	err error
+}
+
+func (w *worker) readLine(d time.Duration) ([]byte, error, bool) {
+	select {
+	case l := <-w.lines:
+		return l.b, l.err, false
+	case <-time.After(d):
+		return nil, nil, true
+	}
+}
 
 func startWorker() (*worker, error) {
 	cmd := exec.Command(os.Args[0], "worker")
@@ -221,10 +240,28 @@ func startWorker() (*worker, error) {
 	if err := cmd.Start(); err != nil {
 		return nil, err
 	}
+	w.lines = make(chan wline, 64)
+	go func() {
+		for {
+			b, err := w.stdout.ReadBytes('\n')
+			w.lines <- wline{b, err}
+			if err != nil {
+				return
+			}
+		}
+	}()
 	return w, nil
 }
 
 func runCase(c corr.Case) (res corr.Result) {
+	if os.Getenv("C16_SLOW") != "" {
+		t0 := time.Now()
+		defer func() {
+			if d := time.Since(t0); d > 2*time.Second {
+				fmt.Fprintf(os.Stderr, "c16: slow case %.1fs [%s] %q\n", d.Seconds(), c.Tag, c.Lines)
+			}
+		}()
+	}
 	if os.Getenv("C16_INPROCESS") != "" {
 		return runCaseLocal(c, nil)
 	}
@@ -240,7 +277,22 @@ func runCase(c corr.Case) (res corr.Result) {
 	req, _ := json.Marshal(c.Lines)
 	_, _ = wk.stdin.Write(append(req, '\n'))
 	for {
-		line, rerr := wk.stdout.ReadBytes('\n')
+		line, rerr, timedOut := wk.readLine(lineTimeout)
+		if timedOut {
+			// no answer: the harness goroutine of the worker (or all of it) hangs inside the code under test. That is a
+			// finding about the script, never a reason to hang or die here.
+			_ = wk.cmd.Process.Kill()
+			_ = wk.stdin.Close()
+			_ = wk.cmd.Wait()
+			wk = nil
+			at := len(res.Outs)
+			for len(res.Outs) < len(c.Lines) {
+				res.Outs = append(res.Outs, "hang:no-answer")
+			}
+			res.Hits = append(res.Hits, corr.Hit{Key: "C16:api:call-never-returns", What: fmt.Sprintf(
+				"no result for script line %d (%s) within %v: the call into the code under test never returned", at, c.Lines[at%len(c.Lines)], lineTimeout)})
+			return res
+		}
 		var m wmsg
 		if rerr == nil && json.Unmarshal(line, &m) == nil {
 			if m.Done {
@@ -432,6 +484,19 @@ func fixedCases() []corr.Case {
 		out = append(out, mk("stress", "init 1 pipe", "stress race "+strconv.Itoa(seed)))
 	}
 	out = append(out, mk("stress", "init 1 pipe", "stress big 1"), mk("stress", "init 1 pipe", "stress big 2"))
+	// backlog: a session that has already sent some packets (the queue's head has moved), then 17..300 Sends queued
+	// behind a stalled peer, a local Close, and the peer reads again: every byte must arrive, in order
+	for _, pre := range []int{0, 1, 3, 9, 15} {
+		for _, n := range []int{15, 16, 17, 18, 33, 70, 300} {
+			ls := []string{"init 1 pipe", "conn"}
+			if pre > 0 {
+				ls = append(ls, "sendn 0 "+strconv.Itoa(pre))
+			}
+			ls = append(ls, "hold 0", "sendn 0 "+strconv.Itoa(n), "close 0", "drain 0", "conn")
+			out = append(out, mk("backlog", ls...))
+		}
+	}
+	out = append(out, mk("backlog", "init 1 pub", "conn", "sendn 0 5", "sendn 0 40", "send 0 6869", "close 0", "conn"))
 	// partial write, then a write timeout / another temporary error — once; later Writes would succeed: the session
 	// must end and must not write anything again (the peer's bytes stay a prefix of the accepted sends)
 	for _, op := range []string{"wpart", "wtemp"} {
@@ -525,6 +590,10 @@ func genCase(r *rng.R, tier string, i int) corr.Case {
 		}
 		if r.Chance(1, 20) {
 			lines = append(lines, "setv "+ks+" "+r.Pick("str", "kz", "nilkz"))
+			continue
+		}
+		if r.Chance(1, 15) {
+			lines = append(lines, "sendn "+ks+" "+strconv.Itoa(r.PickInt(2, 5, 16, 17, 20, 40, 64, 65, 130)))
 			continue
 		}
 		if count >= max && r.Chance(1, 40) {
@@ -707,7 +776,7 @@ func genOnExit(r *rng.R) corr.Case {
 
 func genMalformed(r *rng.R) corr.Case {
 	ls := []string{"init 1 pipe", "conn"}
-	bad := []string{"setv 0", "setv 0 zz", "soak", "soak 0", "soak x", "wpart 0", "wpart 0 x", "wtemp 0 -1", "aerr 0", "stress", "stress race", "stress race x", "uh", "xpanic", "init 1 pubz", "burst 0", "burst 9", "burst", "burst x", "cerr", "send 0", "send 0 0", "send 0 0g", "send 0 AA", "close 1", "close", "pclose x", "conn 1", "frob 0", "init", "init 1", "init 1 foo", "hold", "send 5 aa", "rerr -1", "wto 0 0"}
+	bad := []string{"sendn 0", "sendn 0 0", "sendn 0 x", "setv 0", "setv 0 zz", "soak", "soak 0", "soak x", "wpart 0", "wpart 0 x", "wtemp 0 -1", "aerr 0", "stress", "stress race", "stress race x", "uh", "xpanic", "init 1 pubz", "burst 0", "burst 9", "burst", "burst x", "cerr", "send 0", "send 0 0", "send 0 0g", "send 0 AA", "close 1", "close", "pclose x", "conn 1", "frob 0", "init", "init 1", "init 1 foo", "hold", "send 5 aa", "rerr -1", "wto 0 0"}
 	for j := r.Range(2, 6); j > 0; j-- {
 		if r.Chance(1, 3) {
 			ls = append(ls, r.Pick("send 0 aa", "pdata 0", "conn"))
@@ -789,7 +858,7 @@ func spec() corr.Spec {
 			}
 			return acc && act
 		},
-		Rule: "scripts of connection attempts (single and in bursts of 2..8 without observation in between) against maxConn -1..3 and, per session, Send (incl. zero-length), local Close, peer close, peer reading/not reading, handler data/error/panic/panic(nil), injected read/write errors, forced and real (60 ms read / 250 ms write) timeouts, failing Set*Deadline, a partial write followed by a timeout / temporary error, a failing conn.Close, repeated Start, a value attached with Set (plain, IKeyZap, typed nil), a user-made logger (default / WithLogger), long runs of surplus connections; every terminating event alone and in every ordered pair, with and without a blocked write and queued items; 0..5 queued sends before a local Close; sessions over net.Pipe through the real accept loop and over loopback TCP; a case is non-trivial when a session was started and at least one operation was applied to it; distinct = distinct script text",
+		Rule: "scripts of connection attempts (single and in bursts of 2..8 without observation in between) against maxConn -1..3 and, per session, Send (incl. zero-length; backlogs of up to 300 queued items on a queue whose head has moved), local Close, peer close, peer reading/not reading, handler data/error/panic/panic(nil), injected read/write errors, forced and real (60 ms read / 250 ms write) timeouts, failing Set*Deadline, a partial write followed by a timeout / temporary error, a failing conn.Close, repeated Start, a value attached with Set (plain, IKeyZap, typed nil), a user-made logger (default / WithLogger), long runs of surplus connections; every terminating event alone and in every ordered pair, with and without a blocked write and queued items; 0..5 queued sends before a local Close; sessions over net.Pipe through the real accept loop and over loopback TCP; a case is non-trivial when a session was started and at least one operation was applied to it; distinct = distinct script text",
 		Assumptions: []string{
 			"net.Conn behaviour is assumed at the transition level: closing a connection (or the peer closing) makes the blocked Read/Write of the other loop return an error; a Write to a peer that does not read blocks; deadlines fire (checked on net.Pipe and loopback TCP by the correspondence, not proved)",
 			"sync.Once, sync.Cond, atomic.Int32 behave as documented; the Go scheduler eventually runs a runnable goroutine",
